@@ -11,6 +11,9 @@ import c14_tissue as CT
 import c14_remesh as CRM
 import c14_tissue_remesh as CTR
 
+THEOREMS_TISSUE_INVARIANTS = ["tissueIterationR_invariants", "physStage_invariants", "meshStageT_invariants", "refineLiveT_of_invariants", "cellMeshOk_of_invariants",
+                              "stepOkTR_of_invariants", "runOkTR_of_invariants", "tissueRunR_invariants", "tissueRunR_translate_of_invariants",
+                              "tissueIterationR_translate_of_invariants", "pairR_allOk", "pairR_quiet"]
 THEOREMS_INVARIANTS = ["rebase_preserves", "refineLive_of_invariants", "refineMesh_translate_of_invariants", "meshOk_of_invariants", "cellMeshOk_mesh_parts",
                        "replayOk_of_invariants", "refineLiveR_of_invariants", "cellIterationR_invariants", "stepOkR_of_invariants", "runOkR_of_invariants",
                        "cellRunR_invariants", "cellRunR_translate_of_invariants"]
@@ -233,11 +236,14 @@ def run(ctx):
     proofI = vlib.prove("C14Invariants", THEOREMS_INVARIANTS, NAMESPACE)
     for f in proofI["failures"]:
         V.fail_tie("proof", "%s: %s" % (f["theorem"], f["reason"]), errors=proofI["errors"][:5])
+    proofTI = vlib.prove("C14TissueInvariants", THEOREMS_TISSUE_INVARIANTS, NAMESPACE)
+    for f in proofTI["failures"]:
+        V.fail_tie("proof", "%s: %s" % (f["theorem"], f["reason"]), errors=proofTI["errors"][:5])
     r = vlib.Rng(seed)
     exe, rebuilt = SC.build("asan")
     divstats = {}
     division_oracle(V, exe, vlib.Rng(seed).fork("c14/division"), tier, divstats)
-    wide = tier == "thorough" or not (proof["ok"] and proofP["ok"] and proofT["ok"] and proofR["ok"] and proofTR["ok"] and proofI["ok"])
+    wide = tier == "thorough" or not (proof["ok"] and proofP["ok"] and proofT["ok"] and proofR["ok"] and proofTR["ok"] and proofI["ok"] and proofTI["ok"])
     kinds = ["single", "separated", "adhering", "overlapping-mixed"]
     evaluations = 0
     distinct = set()
@@ -284,16 +290,16 @@ def run(ctx):
                 samples.append({"tissue": kind, "translation": t, "iterations": iters, "cells": ref[0]["ncells"] if ref else None})
     rcode, nviol = V.finish()
     cov = {
-        "obligations": proof["obligations"] + proofP["obligations"] + proofT["obligations"] + proofR["obligations"] + proofTR["obligations"] + proofI["obligations"],
-        "discharged": proof["discharged"] + proofP["discharged"] + proofT["discharged"] + proofR["discharged"] + proofTR["discharged"] + proofI["discharged"],
+        "obligations": proof["obligations"] + proofP["obligations"] + proofT["obligations"] + proofR["obligations"] + proofTR["obligations"] + proofI["obligations"] + proofTI["obligations"],
+        "discharged": proof["discharged"] + proofP["discharged"] + proofT["discharged"] + proofR["discharged"] + proofTR["discharged"] + proofI["discharged"] + proofTI["discharged"],
         "checker_cmd": "lake build SimuVerif.Properties.C14 SimuVerif.Audit.C14 (+ leanchecker in the thorough tier)",
         "trusted_base": vlib.TRUSTED_COMMON + [
             "the stages are assembled into one executable model of solver::run_iteration for a single free cell AND for tissues of interacting epithelial cells (contact search on the re-anchored grid, coupling pass, polarisation, node normals, forces, integrator), bit-identical to the real solver (1 thread) while no cell divides / is removed and all edges stay in the refinement band; tissueRun_translate / tissueRun_observables / domain_translate proved for all such tissues with closed meshes (hypotheses TissueSetup, Wf evaluated on every instance); outside that domain (remeshing, division, removal) only the stage theorems + the two-run oracle; the loops and bindings of Model/Tissue.lean are tied to the code by the differential run (single-thread search order), its arithmetic is Gen.*",
             "the single free cell is also modelled THROUGH remeshing: refine_mesh (splits, collapses, swaps) and the rebase of save_mesh are steps of the assembled model (Model/PipelineR.lean on C01's Remesh.Cell), bit-identical to the real solver incl. slot numbering, edge index and free queues; refineMesh_translate / cellRunR_translate / cellRunR_observables / domainR_translate proved for every cell state on which the decidable hypotheses refineLive and meshOk hold — and both are INVARIANTS of a valid start cell (C01's CellOk: complete edge index, consistent free lists, closed simple non-degenerate vertex-manifold surface), preserved by every refinement pass, rebase and iteration (Properties/C14Invariants.lean: cellRunR_translate_of_invariants needs them on the initial cell only); refineLive (no released node slot is read: node::reset writes the absolute position (0,0,0) there; evaluated on every executed pass, never false) and meshOk hold; outside: division, removal, OpenMP order, rounding",
             "tissues of N interacting epithelial cells are modelled THROUGH remeshing as well (Model/TissueR.lean: per cell refine_mesh in the order / with the exception rule of parallel_exception_handler run by one thread, the rebase of save_mesh, cells kept as C01's Remesh.Cell so that contact search, coupling pass, polarisation, node normals, forces and integrator run on meshes WITH released node / face slots), bit-identical to the real solver incl. slot numbering, edge index, free queues and the node attributes of released slots; tissueIterationR_translate / tissueRunR_translate / tissueRunR_observables / domainTR_translate proved for every state on which the decidable domain predicate stepOkTR (refineLive + replayOk per cell, cellMeshOk of the refined cells, defined coupling pass, couplings on used slots, no division / removal; evaluated on every executed iteration, never false) and TissueSetup hold",
             "rounding is run-time only: allowed deviation per node = size*(1e-8 + iters*20 eps (r+10)), r = offset/size <= 1e5 (linear in r: the coordinates carry the shape to r*eps; no cubic term since the volume determinants are centred on a node of the cell)"],
-        "theorems": dict(list(proof["axioms"].items()) + list(proofP["axioms"].items()) + list(proofT["axioms"].items()) + list(proofR["axioms"].items()) + list(proofTR["axioms"].items()) + list(proofI["axioms"].items())),
-        "proof_failures": proof["failures"] + proofP["failures"] + proofT["failures"] + proofR["failures"] + proofTR["failures"] + proofI["failures"],
+        "theorems": dict(list(proof["axioms"].items()) + list(proofP["axioms"].items()) + list(proofT["axioms"].items()) + list(proofR["axioms"].items()) + list(proofTR["axioms"].items()) + list(proofI["axioms"].items()) + list(proofTI["axioms"].items())),
+        "proof_failures": proof["failures"] + proofP["failures"] + proofT["failures"] + proofR["failures"] + proofTR["failures"] + proofI["failures"] + proofTI["failures"],
         "assembled_tissue_iteration": tissue,
         "assembled_iteration_with_remeshing": remesh,
         "assembled_tissue_iteration_with_remeshing": tissueR,
